@@ -91,7 +91,7 @@ func deref(s *string) string {
 }
 
 var stats = rig.NewStats("C11",
-	"rapid draws a CORS configuration (no origins / '*' / list / list+'*'; allowed headers none / '*' / list; exposed headers; max-age; credentials; '*' together with credentials is kept in a quarter of the cases where it is drawn: construction must then refuse it, and if it does not the requests are judged as usual), 1-3 routes with method sets of which some methods are removed again - before the first request or between two requests -, in a quarter of the cases a sibling stand-alone router whose option lists are longer slices of the arrays the subject's lists were cut from (created before or after the subject, sent every request first), and 1-8 requests, some repeated verbatim (one in ten with a second Origin header line; method from the nine + unknown + the empty method; path = live witness / unknown / '*' / the empty path; Origin absent / listed / listed in other case / unlisted / 'null' / ''; Access-Control-Request-Method absent / served / unserved / junk; Access-Control-Request-Headers drawn from allowed and other names with random letter case and spacing). Every response is judged against the reference decision table as an upper bound: ACAO only '*' (if configured) or the request's own exactly-listed Origin; never on a deny config, a 404/405, a preflight for an unserved method or for a header outside the list (case-insensitive); ACAC:true only with an echoed listed origin. Non-trivial: the request carries an Origin and is a preflight or the config is a list; distinct by hash of the case")
+	"rapid draws a CORS configuration (no origins / '*' / list / list+'*'; allowed headers none / '*' / list; exposed headers; max-age; credentials; '*' together with credentials is kept in a quarter of the cases where it is drawn: construction must then refuse it, and if it does not the requests are judged as usual), 1-3 routes with method sets of which some methods are removed again - before the first request or between two requests -, in a quarter of the cases a sibling stand-alone router whose option lists are longer slices of the arrays the subject's lists were cut from (created before or after the subject, sent every request first), and 1-8 requests, some repeated verbatim (one in ten with a second Origin header line; method from the nine + unknown + the empty method; path = live witness / unknown / '*' / the empty path; Origin absent / listed / listed in other case / unlisted / 'null' / ''; Access-Control-Request-Method absent / served / unserved / junk; Access-Control-Request-Headers drawn from allowed and other names with random letter case and spacing). Every response is judged against the reference decision table as an upper bound: ACAO only '*' (if configured) or the request's own exactly-listed Origin; never on a deny config, a 404/405, a preflight for an unserved method or for a header outside the list (case-insensitive); ACAC:true only with an echoed listed origin. Non-trivial: the request carries an Origin and is a preflight or the config is a list; distinct by hash of the case. Later additions to the generated domain: One origin list in eight is a subset of 8-40 of a pool of sixty origins (some 64 bytes and longer) with foreign origins drawn from the unlisted rest; the configuration WithAllowedCORS stands for is built with it; routes gain methods between two requests; panicking routes run under any of the five recovery options. Allowed header names include two with non-token bytes; near misses also replace an i by U+0130 / U+0131.")
 
 func TestProp(t *testing.T) { rig.RunProp(t, stats, corsref.Gen, check) }
 
